@@ -94,20 +94,24 @@ ClearCache == /\ "ClearCache" \in Ops
 
 \* is_subclass: all(p not in self for p in other.basis), basis elements in their stored
 \* (sorted) order, stopping at the first member.  Ideal meaning: Av(self) is contained in
-\* Av(other).  Deviation IsSubclass_MeshVacuous: a mesh basis element is never `in` the class.
+\* Av(other).  For two classical bases the walk decides exactly that.  When a mesh basis is
+\* involved it does not (deviation IsSubclass_MeshBasisWalk): a mesh basis element of `other` is
+\* never `in` the class (the answer is vacuously TRUE), and a class with a mesh basis is not
+\* closed under taking patterns, so "no basis element of other is in self" does not imply inclusion.
 BasisSeq(bd) == IF bd.mesh THEN <<>> ELSE SetToSortSeq(bd.elems, PPermLess)
 RECURSIVE SubWalk(_, _, _, _)
 SubWalk(L, bd, bs, k) ==      \* returns <<levels, verdict>>
     IF k > Len(bs) THEN <<L, TRUE>>
     ELSE CHOOSE res \in { IF bs[k] \in DOMAIN L2[Len(bs[k]) + 1] THEN <<L2, FALSE>> ELSE SubWalk(L2, bd, bs, k + 1)
                           : L2 \in {Ensure(L, bd, Len(bs[k]))} } : TRUE
-IsSubclass_MeshVacuous == TRUE
 IsSubclassIdealUpTo(i, j, N) == \A n \in 0..N : CL(insts[i].b, n) \subseteq CL(insts[j].b, n)
 IsSubclass(i, j) ==
     /\ "IsSubclass" \in Ops
     /\ \E w \in {SubWalk(insts[i].levels, Bas(i), BasisSeq(Bas(j)), 1)} :
        /\ insts' = [insts EXCEPT ![i].levels = w[1]]
-       /\ reply' = R("bool", 0, {}, <<>>, IF Bas(j).mesh THEN IsSubclassIdealUpTo(i, j, MaxLen) ELSE w[2])
+       \* reply.flag: the ideal (bounded by MaxLen when a mesh basis is involved); reply.n = 1 iff the deviating walk says TRUE
+       /\ reply' = R("bool", IF w[2] THEN 1 ELSE 0, {}, <<>>,
+                     IF Bas(i).mesh \/ Bas(j).mesh THEN IsSubclassIdealUpTo(i, j, MaxLen) ELSE w[2])
     /\ act' = A("IsSubclass", i, j, <<>>) /\ UNCHANGED <<cc, its, fault>>
 
 \* ---- lazy iterators -----------------------------------------------------------------
@@ -198,7 +202,7 @@ ReplyCorrect ==
       [] act.name = "OfLength" -> reply.set = CL(insts[act.i].b, act.n)
       [] act.name = "Enumeration" -> reply.seq = [k \in 1..(act.n + 1) |-> Cardinality(CL(insts[act.i].b, k - 1))]
       [] act.name = "Member" -> reply.flag = AvoidsBasis(act.q, Bas(act.i))
-      [] act.name = "IsSubclass" -> (~Bas(act.n).mesh => (reply.flag <=> IsSubclassIdealUpTo(act.i, act.n, MaxLen + 1)))
+      [] act.name = "IsSubclass" -> ((~Bas(act.i).mesh /\ ~Bas(act.n).mesh) => (reply.flag <=> IsSubclassIdealUpTo(act.i, act.n, MaxLen + 1)))
       [] act.name = "NextIt" -> (reply.kind = "yield" => reply.set \subseteq CL(insts[its[act.i].i].b, reply.n))
       [] OTHER -> TRUE
 \* iterators only ever walk complete levels
